@@ -166,6 +166,40 @@ func errorIndex(fn *ssa.Function) int {
 // compared with nil (or returned directly), and with the success edges
 // removed no return with a constant-nil error is reachable from the call.
 func failurePropagates(call *ssa.Call) (bool, string) {
+	return failurePropagatesExcept(call, nil)
+}
+
+// notExistEdges: the edges taken when a not-exist test of the error of call
+// is true (os.IsNotExist(err), errors.Is(err, fs.ErrNotExist)): a failure the
+// caller may legitimately treat as "nothing there yet".
+func notExistEdges(call *ssa.Call) map[[2]int]bool {
+	out := map[[2]int]bool{}
+	ev := errValue(call)
+	if ev == nil {
+		return out
+	}
+	for _, iff := range ssau.Ifs(call.Parent()) {
+		tc, ok := iff.Cond.(*ssa.Call)
+		if !ok || len(tc.Common().Args) == 0 || ssau.ResolveCell(tc.Common().Args[0]) != ev {
+			continue
+		}
+		switch ssau.CallName(tc) {
+		case "os.IsNotExist":
+			out[[2]int{iff.Block().Index, 0}] = true
+		case "errors.Is":
+			if u, ok := ssau.Strip(tc.Common().Args[1]).(*ssa.UnOp); ok {
+				if g, ok := u.X.(*ssa.Global); ok && g.Name() == "ErrNotExist" {
+					out[[2]int{iff.Block().Index, 0}] = true
+				}
+			}
+		}
+	}
+	return out
+}
+
+// failurePropagatesExcept is failurePropagates with some failure edges
+// declared tolerable (tolerated: edges after which a nil return is fine).
+func failurePropagatesExcept(call *ssa.Call, tolerated map[[2]int]bool) (bool, string) {
 	fn := call.Parent()
 	ei := errorIndex(fn)
 	if ei < 0 {
@@ -189,6 +223,16 @@ func failurePropagates(call *ssa.Call) (bool, string) {
 	if len(succ) == 0 && direct {
 		// every use must be that return (tail call)
 		return true, ""
+	}
+	if len(tolerated) > 0 {
+		cut := map[[2]int]bool{}
+		for e := range succ {
+			cut[e] = true
+		}
+		for e := range tolerated {
+			cut[e] = true
+		}
+		succ = cut
 	}
 	reach := blocksReachable(call.Block(), succ)
 	reach[call.Block()] = true
